@@ -18,7 +18,6 @@ import (
 	"fmt"
 	"net"
 	"os"
-	"runtime"
 	"strconv"
 	"testing"
 	"time"
@@ -301,13 +300,6 @@ func runBehaviour(t *testing.T, b Behaviour, out *bufio.Writer) {
 	start := time.Now()
 	tr := vtrace.New(out, b.ID)
 	tr.Emit("Cfg", cfgEvent(b.Cfg))
-	for _, f := range b.Cfg.MX {
-		if f.Slow {
-			// make "the lookup goroutine has not run yet when the client moves on" the usual case
-			defer runtime.GOMAXPROCS(runtime.GOMAXPROCS(1))
-			break
-		}
-	}
 	w := buildWorld(t, b.Cfg, tr)
 	defer w.close()
 	ctx, cancel := context.WithTimeout(context.Background(), harnessBudget)
